@@ -218,7 +218,10 @@ def run_case(case, ctx):
         ctx.label("text-class:" + c)
     # strings equal up to case under ignore_case are (rightly) rejected
     if ic and len({t.lower() for t in texts}) < len(set(texts)):
-        if e_in and e_de and "same string" in str(e_in[1]) and "same string" in str(e_de[1]):
+        # (the inline form may already stumble over another text of the case, e.g. a text equal to a rule
+        # name - whichever error it reports, the case is outside the domain once the declared form is rejected
+        # for this reason and the inline form is rejected too)
+        if e_in and e_de and "same string" in str(e_de[1]):
             ctx.label("out-of-domain:strings-equal-up-to-case")
             return
     # ---- (1) inline form succeeds iff declared form does ---------------------
